@@ -109,6 +109,10 @@ def abnormal_violation(r, res, what):
     r.violate(res.key, "%s: %s terminated abnormally (%s)" % (what, os.path.basename(res.argv[0]), res.key), run=res.brief())
 
 
+class Unconfirmed(Exception):
+    """A wall-clock timeout that could not be turned into a witnessed hang."""
+
+
 def run_must_terminate(ctx, tool, args, cwd, flavor=None, quick_timeout=20, confirm_timeout=100, env=None):
     """Run a tool that must terminate.  A timeout is re-run once alone with a much larger budget; only a
     *confirmed* hang is returned as such (res.kind == 'timeout', res.key = 'hang:<tool>:<frame>')."""
@@ -122,6 +126,10 @@ def run_must_terminate(ctx, tool, args, cwd, flavor=None, quick_timeout=20, conf
     frame = hang_frame([ctx.tool(tool, flavor)] + list(args), cwd, ctx.home())
     res2.kind = "timeout"
     res2.key = "hang:%s:%s" % (tool, frame)
+    if frame == "?":
+        # no libabigail frame could be named for the spinning process: on a loaded machine (sanitizer builds are 10-20x
+        # slower) this is a slow run, not a witnessed hang - inconclusive, never a violation
+        raise Unconfirmed("timeout of %s without an identifiable spinning frame" % tool)
     return res2, True
 
 
